@@ -1019,6 +1019,29 @@ def parse(
     db_folder.mkdir(parents=True, exist_ok=True)
 
     full_db_path = db_folder / cache_db
+
+    for _ in range(2):
+        try:
+            return _parse_cached(
+                txt, full_db_path, pymoca_version, cache_expiration_days, always_update_last_hit
+            )
+        except sqlite3.DatabaseError as e:
+            # The database file was damaged, replaced or removed after we checked it.
+            # Forget that we checked it, so that the next attempt repairs it.
+            logger.warning(f"Model cache database error ({e}), checking database again")
+            if hasattr(parse, "initialized_dbs"):
+                parse.initialized_dbs.discard(full_db_path)
+
+    return _parse(txt)
+
+
+def _parse_cached(
+    txt: str,
+    full_db_path: Path,
+    pymoca_version: str,
+    cache_expiration_days: int,
+    always_update_last_hit: bool,
+) -> Union[ast.Tree, None]:
     conn = sqlite3.connect(full_db_path, isolation_level=None)
 
     cursor = conn.cursor()
